@@ -186,14 +186,14 @@ def run(ctx):
     res.assumptions = ["a read past the end that cannot influence any output is not a violation (property as stated)",
                        "sanitizers cannot see this class: the 64 KB buffer is fully addressable"]
     res.min_nontrivial = 12
-    rounds = ctx.pick(30 * 16, 600 * 16)
+    rounds = ctx.pick(30 * 16, 3000 * 16)
     with core.Build() as b:
         drv = b.unit("residue", ["residue.c"], objs=["dns", "read", "encoding", "base32", "base64", "base64u", "base128"], libs=())
         sh = ctx.jobs
         unitrun.run_sharded(res, "C12", drv, sh, lambda i: [i, sh, ctx.seed, rounds])
         # Engine A confirmation: whole-program output traces under different receive-buffer residues
         rng = random.Random(ctx.seed * 1213 + 12)
-        n = ctx.pick(48, 1200)
+        n = ctx.pick(96, 6000)
         plist = [{"idx": i, "seed": ctx.seed * 100000 + i, "rseed": rng.getrandbits(32), "side": "server" if i % 2 == 0 else "client",
                   "n": rng.randint(20, 60), "p": rng.choice([0.2, 0.5]), "qtype": rng.choice([None, "NULL", "TXT", "CNAME", "MX", "SRV"])}
                  for i in range(n)]
